@@ -12,7 +12,7 @@ CONSTS = [('c', 'au::SPEED_OF_LIGHT'), ('g0', 'au::STANDARD_GRAVITY'), ('k7_3', 
 
 def obligations(tier, seed):
     obs = []
-    for rep in ('i32', 'i64', 'u16', 'f32', 'f64'):
+    for rep in ((G.INT_REPS + ['f32', 'f64']) if tier == 'thorough' else ('i32', 'i64', 'u16', 'f32', 'f64')):
         ct = G.ctype(rep); fp = G.is_fp(rep)
         bits = {'f32': 'vf_f32_bits', 'f64': 'vf_f64_bits'}.get(rep)
         same = (lambda r: '%s(%s) == %s(x)' % (bits, r, bits)) if fp else (lambda r: '%s == x' % r)
